@@ -87,8 +87,23 @@ def make_cases(run, scratch):
                               ["env HWLOC_LIBXML_IMPORT " + backend] + cfg + ["src xml " + x], "xml"))
     lin = S.snapshots("linux")
     x86 = S.snapshots("x86")
+    # "no object of a filtered-out type is present": every filterable normal type set to KEEP_NONE, one at a time,
+    # on every x86 dump (cheap) and on the sampled Linux snapshots (seeded change C01b: Die objects built under the
+    # wrong filter in topology-x86.c)
+    per_type = [1, 2, 3, 5, 6, 7, 8, 9, 10, 11, 12, 13]
     if quick:
         lin = rng.sample(lin, min(8, len(lin)))
+    for tb in x86:
+        d = scratch.unpack(tb)
+        for ty in per_type:
+            cases.append(("x86:%s|filter %d 1" % (os.path.basename(tb), ty),
+                          ["env HWLOC_COMPONENTS x86,stop", "env HWLOC_THISSYSTEM 0", "env HWLOC_FSROOT", "filter %d 1" % ty, "src cpuid " + d], "x86-type-none"))
+    for tb in lin:
+        d = scratch.unpack(tb)
+        for ty in (per_type if not quick else rng.sample(per_type, 4)):
+            cases.append(("linux:%s|filter %d 1" % (os.path.basename(tb), ty),
+                          ["env HWLOC_COMPONENTS linux,stop", "env HWLOC_THISSYSTEM 0", "env HWLOC_CPUID_PATH", "filter %d 1" % ty, "src fsroot " + d], "linux-type-none"))
+    if quick:
         x86 = rng.sample(x86, min(6, len(x86)))
     for tb in lin:
         d = scratch.unpack(tb)
@@ -106,12 +121,22 @@ def make_cases(run, scratch):
     return cases
 
 
+def trace_inserts(name, kind):
+    """Insertion tracing prints the whole raw tree around every insertion (quadratic): small inputs only."""
+    if kind in ("synthetic", "synthetic2", "corpus"):
+        return True
+    if kind in ("linux", "x86", "x86-type-none", "linux-type-none"):
+        m = re.match(r"\w+:(\d+)", name)
+        return bool(m) and int(m.group(1)) <= 32
+    return False
+
+
 def script_of(indexed):
     out = []
     for i, (name, lines, kind) in indexed:
         out.append("echo CASE %d" % i)
         out.append("new")
-        out.append("phases 1")
+        out.append("phases 2" if trace_inserts(name, kind) else "phases 1")
         out += lines
         out += ["load", "dump", "check", "destroy"]
     return "\n".join(out) + "\n"
@@ -154,7 +179,7 @@ def run_cases(run, cases, exe, drv):
                 elif cur is not None:
                     r = results[cur]
                     r["lines"].append(line)
-                    for tag in ("load", "wf", "levels", "sets", "totals", "removal", "check"):
+                    for tag in ("load", "wf", "levels", "sets", "totals", "removal", "inserts", "check"):
                         if line.startswith(tag + " "):
                             r[tag] = line
             if rc != 0 or rc2 != 0:
@@ -188,12 +213,19 @@ def judge(run, cases, results):
                 # this is a violation with a concrete input (above); otherwise the correspondence is broken
                 run.violation("correspondence:levels:%s" % kind, "model of hwloc_connect_levels/special lists disagrees with the implementation on %s" % name,
                               script + "\n--- verdict\n" + str(r.get("levels"))[:3000], no_input=(r["wf"] or "").startswith("wf ok"))
+            elif r.get("inserts") is not None and not r["inserts"].startswith("inserts ok"):
+                run.violation("correspondence:insert-by-cpuset:%s" % kind,
+                              "model of hwloc___insert_object_by_cpuset (Topo/Insert.v) disagrees with the implementation on %s" % name,
+                              script + "\n--- verdict\n" + r["inserts"][:2000], no_input=(r["wf"] or "").startswith("wf ok"))
             elif r.get("sets") != "sets ok" or r.get("totals") != "totals ok" or r.get("removal") != "removal ok":
                 run.violation("correspondence:sets-pipeline:%s" % kind,
                               "model of the set post-processing (root fix-up, propagate_nodeset, fixup_sets, remove_unused_sets, filter_bridges, remove_empty, propagate_total_memory) disagrees with the implementation on %s" % name,
                               script + "\n--- verdict\n%s\n%s\n%s" % (r.get("sets"), r.get("totals"), r.get("removal")), no_input=(r["wf"] or "").startswith("wf ok"))
             elif (r["wf"] or "").startswith("wf ok"):
                 run.cov["traces_validated_against_impl"] += 1
+                m = re.match(r"inserts ok n=(\d+)", r.get("inserts") or "")
+                if m:
+                    run.cov["insertions_replayed_in_model"] = run.cov.get("insertions_replayed_in_model", 0) + int(m.group(1))
             if r["check"] != "check ok":
                 run.violation("topology_check-abort:%s" % kind, "hwloc_topology_check() aborts on %s" % name, script)
 
